@@ -69,7 +69,7 @@ struct MiriResult {
     cmds: Vec<String>,
 }
 
-fn run_miri(sim_dir: &Path, target: &Path, prof: Profile, base: u64, workloads: u64, seeds: u64) -> MiriResult {
+fn run_miri(sim_dir: &Path, target: &Path, prof: Profile, prop: &str, base: u64, workloads: u64, seeds: u64) -> MiriResult {
     let t0 = Instant::now();
     let mut res = MiriResult { workloads: 0, executions: 0, failures: Vec::new(), error: None, wall_s: 0.0, cmds: Vec::new() };
     for w in 0..workloads {
@@ -80,10 +80,10 @@ fn run_miri(sim_dir: &Path, target: &Path, prof: Profile, base: u64, workloads: 
             .env("MIRIFLAGS", &flags)
             .env("CARGO_NET_OFFLINE", "true")
             .env("CARGO_TARGET_DIR", target)
-            .args(["+nightly", "miri", "run", "--offline", "--no-default-features", "--quiet", "--", "miri", "--profile", prof.name(), "--seed", &wseed.to_string()])
+            .args(["+nightly", "miri", "run", "--offline", "--no-default-features", "--quiet", "--", "miri", "--prop", prop, "--profile", prof.name(), "--seed", &wseed.to_string()])
             .stdout(Stdio::piped())
             .stderr(Stdio::piped());
-        res.cmds.push(format!("MIRIFLAGS=\"{flags}\" cargo +nightly miri run --offline --no-default-features -- miri --profile {} --seed {wseed}", prof.name()));
+        res.cmds.push(format!("MIRIFLAGS=\"{flags}\" cargo +nightly miri run --offline --no-default-features -- miri --prop {prop} --profile {} --seed {wseed}", prof.name()));
         match cmd.output() {
             Err(e) => {
                 res.error = Some(format!("cannot start cargo miri: {e}"));
@@ -99,11 +99,11 @@ fn run_miri(sim_dir: &Path, target: &Path, prof: Profile, base: u64, workloads: 
                     let diag = se
                         .lines()
                         .chain(so.lines())
-                        .find(|l| l.contains("Undefined Behavior") || l.contains("Data race") || l.starts_with("VIOL ") || l.contains("error: unsupported") || l.contains("memory leaked"))
+                        .find(|l| l.contains("Undefined Behavior") || l.contains("Data race") || l.starts_with("VIOL ") || l.starts_with("NON-UNWINDING-PANIC") || l.contains("unsafe precondition") || l.contains("memory leaked"))
                         .map(str::to_string);
                     match diag {
                         Some(d) => {
-                            let seedline = se.lines().find(|l| l.contains("seed")).unwrap_or("").to_string();
+                            let seedline = se.lines().chain(so.lines()).find(|l| l.contains("FAILING SEED")).unwrap_or("").to_string();
                             res.failures.push((wseed, format!("{d} {seedline}")));
                         }
                         None => {
@@ -157,7 +157,7 @@ fn minimise(mut best: Trace, prop: &str, key: &str, scratch: &Path) -> (Trace, u
     let mut execs = 0u64;
     let t0 = Instant::now();
     let budget_ok = |execs: u64| execs < 500 && t0.elapsed().as_secs() < 90;
-    let mut try_accept = |cand: Trace, best: &mut Trace, execs: &mut u64| -> bool {
+    let try_accept = |cand: Trace, best: &mut Trace, execs: &mut u64| -> bool {
         if cand == *best || !budget_ok(*execs) {
             return false;
         }
@@ -323,17 +323,18 @@ pub fn check_main(args: &[String]) -> i32 {
     let seed = arg_val(args, "--seed").and_then(|s| s.parse().ok()).or_else(|| std::env::var("VERIF_SEED").ok().and_then(|s| s.parse().ok())).unwrap_or(0u64);
     let jobs = arg_u64(args, "--jobs", std::thread::available_parallelism().map(|n| n.get() as u64).unwrap_or(8).min(16)).max(1);
     let vdir = PathBuf::from(arg_val(args, "--verif-dir").unwrap_or_else(|| "/verif".into()));
-    let default_runs = if tier == "quick" { 2400 } else { 160_000 };
+    let default_runs = if tier == "quick" { 24_000 } else { 1_000_000 };
     let runs = arg_u64(args, "--runs", default_runs).max(jobs);
     let with_miri = (prop == "C07" || prop == "C11") && !args.iter().any(|a| a == "--no-miri");
-    let (miri_workloads, miri_seeds) = if tier == "quick" { (arg_u64(args, "--miri-workloads", 2), arg_u64(args, "--miri-seeds", 8)) } else { (arg_u64(args, "--miri-workloads", 24), arg_u64(args, "--miri-seeds", 24)) };
+    let (miri_workloads, miri_seeds) = if tier == "quick" { (arg_u64(args, "--miri-workloads", 4), arg_u64(args, "--miri-seeds", 8)) } else { (arg_u64(args, "--miri-workloads", 40), arg_u64(args, "--miri-seeds", 16)) };
     let scratch = std::env::temp_dir();
     println!("dsim check property={prop} tier={tier} seed={seed} profile={} runs={runs} jobs={jobs} miri={}", prof.name(), if with_miri { format!("{miri_workloads}x{miri_seeds}") } else { "off".into() });
 
     // ---- Miri engine beside the native sessions
     let miri_handle = if with_miri {
         let (sim_dir, target) = (vdir.join("sim"), vdir.join("target").join("miri"));
-        Some(std::thread::spawn(move || run_miri(&sim_dir, &target, prof, seed, miri_workloads, miri_seeds)))
+        let prop2 = prop.clone();
+        Some(std::thread::spawn(move || run_miri(&sim_dir, &target, prof, &prop2, seed, miri_workloads, miri_seeds)))
     } else {
         None
     };
@@ -511,7 +512,7 @@ pub fn check_main(args: &[String]) -> i32 {
             let _ = std::fs::create_dir_all(vdir.join("replay"));
             let path = vdir.join("replay").join(format!("{prop}-miri-workload{w}.txt"));
             let text = format!(
-                "# Miri engine failure for property {prop}\n# diagnostic: {d}\n# re-execute (the failing Miri seed is named in the diagnostic; use -Zmiri-seed=<n> for that one execution):\ncd /verif/sim && MIRIFLAGS=\"-Zmiri-many-seeds={seed}..{} -Zmiri-preemption-rate=0.05\" cargo +nightly miri run --offline --no-default-features -- miri --profile {} --seed {w}\n",
+                "# Miri engine failure for property {prop}\n# diagnostic: {d}\n# re-execute (the failing Miri seed is named in the diagnostic; use -Zmiri-seed=<n> for that one execution):\ncd /verif/sim && MIRIFLAGS=\"-Zmiri-many-seeds={seed}..{} -Zmiri-preemption-rate=0.05\" cargo +nightly miri run --offline --no-default-features -- miri --prop {prop} --profile {} --seed {w}\n",
                 seed + miri_seeds,
                 prof.name()
             );
